@@ -4,6 +4,7 @@ mod c15;
 mod c18;
 mod c35;
 mod c40;
+mod access;
 mod actions;
 mod c20;
 mod c21;
@@ -40,6 +41,7 @@ fn main() {
         "C16" => cfgkeys::run_c16(&cli),
         "C17" => cfgkeys::run_c17(&cli),
         "C18" => c18::run(&cli),
+        "C19" => access::run(&cli),
         "C20" => c20::run(&cli),
         "C21" => c21::run(&cli),
         "C22" | "C23" => actions::run(&cli),
